@@ -201,6 +201,8 @@ impl Request {
                 // dropped, however much of the body was read (with O-REL-2 / O-DRAIN / O-FUSED-DRAIN of U-READERS)
                 &&& !f_upgrade(headers@) && !f_buffered(headers@) && ((f_cl(headers@) is Some && f_cl(headers@)->Some_0 > 0 && source_data.stream().len() >= f_cl(headers@)->Some_0) || (f_cl(headers@) is None && f_te(headers@)))
                         ==> rq.body_release() == source_data.stream().skip(f_body_end(headers@, source_data.stream()))
+                // C15: a request whose buffered small body was incomplete is never delivered
+                &&& f_buffered(headers@) ==> source_data.stream().len() >= f_cl(headers@)->Some_0
                 // O-READAHEAD (C11): a request with no body or a small one (not awaiting 100-continue) does not keep the source
                 &&& !f_upgrade(headers@) && (f_buffered(headers@) || f_cl(headers@) == Some(0usize) || (f_cl(headers@) is None && !f_te(headers@))) ==> !rq.keeps_source()
                 // ... the declared length is reported exactly when Content-Length decided
